@@ -550,16 +550,23 @@ func (m *Machine) conv(tdst, tsrc types.Type, x Value) Value {
 				}
 				return mkStrTerms(out)
 			}
-			// []rune
-			var bs []byte
+			// []rune: constant runes are encoded; a symbolic rune is followed on its ASCII branch
+			// (one byte), the non-ASCII branch is outside the model
+			var out []*Term
 			for i := 0; i < sv.len; i++ {
 				t := (*sv.at(i)).(*Term)
 				if !t.IsConst() {
-					m.unsupported("[]rune->string with symbolic rune")
+					if m.branch(tAnd(tCmp(">=", t, mkInt64(0)), tCmp("<", t, mkInt64(128)))) {
+						out = append(out, t)
+						continue
+					}
+					m.unsupported("[]rune->string with symbolic non-ASCII rune")
 				}
-				bs = utf8.AppendRune(bs, rune(t.Int64()))
+				for _, b := range utf8.AppendRune(nil, rune(t.Int64())) {
+					out = append(out, byteTerm(b))
+				}
 			}
-			return Str{s: string(bs)}
+			return mkStrTerms(out)
 		}
 		return x
 	case *types.Basic:
@@ -582,7 +589,19 @@ func (m *Machine) conv(tdst, tsrc types.Type, x Value) Value {
 				return sliceV{a: a, len: len(a), cap: len(a)}
 			}
 			if !s.IsConc() {
-				m.unsupported("string->[]rune with symbolic bytes")
+				// symbolic bytes: followed on the all-ASCII branch (one rune per byte)
+				var a []Value
+				for i := 0; i < s.Len(); i++ {
+					b := s.At(i)
+					if !b.IsConst() && !m.branch(tCmp("<", b, mkInt64(128))) {
+						m.unsupported("string->[]rune with symbolic non-ASCII bytes")
+					}
+					if b.IsConst() && b.Int64() >= 128 {
+						m.unsupported("string->[]rune mixing symbolic and non-ASCII bytes")
+					}
+					a = append(a, b)
+				}
+				return sliceV{a: a, len: len(a), cap: len(a)}
 			}
 			var a []Value
 			for _, r := range s.s {
